@@ -680,7 +680,7 @@ func pureIntercept(fn *ssa.Function) bool {
 		return true
 	}
 	switch fn.Name() {
-	case "verifAnd", "verifOr", "verifImplies", "verifIteU64", "verifIteInt", "verifStrEq", "verifBytesEq",
+	case "verifB2U", "verifAnd", "verifOr", "verifImplies", "verifIteU64", "verifIteInt", "verifStrEq", "verifBytesEq",
 		"verifTier", "verifTimeOf", "verifTimeNs":
 		return fn.Pkg != nil && strings.HasPrefix(fn.Pkg.Pkg.Path(), repoModule)
 	}
